@@ -133,6 +133,8 @@ func runC02(r *Run) {
 	if pageSize <= 1024 {
 		maxPages = 700
 	}
+	bigStart := maxPages >= 700 && t.Chance(1, 3) // start beyond the first checksum block
+	r.Cfg["big_start"] = bigStart
 	lockPageRun := r.Thorough() && pageSize == 65536 && t.Chance(1, 12)
 	r.Cfg["page_size"], r.Cfg["mode"], r.Cfg["lz4"], r.Cfg["keep_jfd"], r.Cfg["programs"] = pageSize, mode, compress, keepJFD, nprog
 	r.Cfg["lock_page_run"] = lockPageRun
@@ -167,6 +169,9 @@ func runC02(r *Run) {
 		r.Step()
 		cur := ref.N()
 		prog := GenProgram(t, cur, maxPages, LockPgno(pageSize))
+		if i == 0 && bigStart {
+			prog.NewSize, prog.Outcome = BigSize(t, maxPages), OutCommit
+		}
 		if lockPageRun && i == 1 {
 			prog.NewSize = LockPgno(pageSize) + uint32(t.Range(0, 2))
 			prog.Outcome = OutCommit
